@@ -51,6 +51,7 @@ func (r *DecodeResult) decode(data []byte) error {
 			continue
 		}
 		fd := r.flatData[flatIdx]
+		verifPoint("lazy.field")
 		if len(fd.data) > 0 && fd.wt != wt {
 			return fmt.Errorf("invalid message data - repeated tag %d w/ different wire types (prev=%v, current=%v)", tag, fd.wt, wt)
 		}
@@ -150,6 +151,7 @@ func (r *DecodeResult) close() {
 				r.trunc(n)
 			}
 		}
+		verifPoint("lazy.beforePut")
 		r.pool.Put(r)
 	}
 }
@@ -240,6 +242,7 @@ func (r *DecodeResult) NestedResult(tag int) (*DecodeResult, error) {
 		return nil, err
 	}
 	tmp.skipClose = true
+	verifPoint("lazy.beforeClosers")
 	r.closers = append(r.closers, tmp)
 	return tmp, nil
 }
